@@ -11,6 +11,8 @@
 package main
 
 import (
+	"crypto/hmac"
+	"crypto/sha256"
 	"encoding/base64"
 	"encoding/json"
 	"fmt"
@@ -120,7 +122,13 @@ type tokView struct {
 	expires time.Time
 }
 
-func viewToken(tok string) tokView {
+// The MAC bit is the PROVENANCE of the token, not a recomputation with the
+// node's key: macByNode says whether the signature was produced with the key of
+// this node (by the node itself, or through the verif export that signs with
+// the package key).  A token the harness signs on its own under a guessed key
+// (forgedToken) is not issued by the node: mac_ok = false whatever the node's
+// key happens to be.
+func viewToken(tok string, macByNode bool) tokView {
 	parts := strings.Split(tok, ".")
 	if len(parts) != 2 {
 		return tokView{kind: "malformed"}
@@ -130,7 +138,7 @@ func viewToken(tok string) tokView {
 		return tokView{kind: "badenc"}
 	}
 	v := tokView{kind: "parsed"}
-	v.macOK = api.VerifCSRFSign(payload) == parts[1]
+	v.macOK = macByNode
 	var t api.CSRFToken
 	if err := json.Unmarshal(payload, &t); err == nil {
 		v.jsonOK = true
@@ -176,7 +184,7 @@ type variant struct {
 }
 
 var (
-	tokenVariants   = []string{"valid", "none", "valid_1h", "valid_2s", "expired_2s", "expired_1h", "badmac", "threeparts", "badb64", "badjson", "noexpiry", "empty_sig"}
+	tokenVariants   = []string{"valid", "none", "valid_1h", "valid_2s", "expired_2s", "expired_1h", "badmac", "threeparts", "badb64", "badjson", "noexpiry", "empty_sig", "forged_emptykey", "forged_zero32", "forged_zero64", "forged_const"}
 	hostVariants    = []string{"ok_ip", "ok_localhost", "configured", "whitelisted", "foreign", "foreign_port", "empty", "ok_upper", "suffix_attack", "prefix_attack", "noport", "otherport", "mutated"}
 	originVariants  = []string{"none", "ok_ip", "ok_localhost", "configured", "whitelisted", "foreign", "foreign_sameport", "unparsable", "schemeless", "https_ok", "null", "userinfo_attack", "suffix_attack", "path_attack", "mutated"}
 	refererVariants = []string{"none", "ok", "foreign", "unparsable"}
@@ -243,7 +251,45 @@ func randomVariant(r *Rng) variant {
 	return v
 }
 
+// forgedKeys are keys an outsider can guess; a token signed under one of them
+// offline, with a well-formed payload and a far-future expiry, must be refused.
+var forgedKeys = map[string][]byte{
+	"forged_emptykey": {},
+	"forged_zero32":   make([]byte, 32),
+	"forged_zero64":   make([]byte, 64),
+	"forged_const":    []byte(api.CSRFHeaderName),
+}
+
+func forgedToken(kind string, now time.Time) string {
+	nonce := make([]byte, 64)
+	for i := range nonce {
+		nonce[i] = byte(i*7 + 3)
+	}
+	payload, err := json.Marshal(api.CSRFToken{Nonce: nonce, ExpiresAt: now.Add(24 * time.Hour)})
+	if err != nil {
+		panic(err)
+	}
+	h := hmac.New(sha256.New, forgedKeys[kind])
+	h.Write(payload) //nolint:errcheck
+	return base64.RawURLEncoding.EncodeToString(payload) + "." + base64.RawURLEncoding.EncodeToString(h.Sum(nil))
+}
+
+// tokenByNode says whether a token of this kind carries a signature made with the node's key.
+func tokenByNode(kind string) bool {
+	if _, forged := forgedKeys[kind]; forged {
+		return false
+	}
+	switch kind {
+	case "badmac", "empty_sig", "none", "threeparts", "badb64":
+		return false
+	}
+	return true
+}
+
 func makeToken(kind string, now time.Time) string {
+	if _, forged := forgedKeys[kind]; forged {
+		return forgedToken(kind, now)
+	}
 	mk := func(d time.Duration) string {
 		t, err := api.VerifNewCSRFTokenWithTime(now.Add(d))
 		if err != nil {
@@ -512,7 +558,7 @@ func buildRequest(r *Rng, c *config, path, method string, v variant, tokenOverri
 		acrm = v.acrm
 	}
 	coq := strings.Join([]string{poolS.id(Str(method)), poolS.id(Str(req.Host)), poolS.id(Str(origin)), poolS.id(Str(referer)), poolChk.id(chkHost),
-		poolS.id(Str(ct)), poolAuth.id(au), poolTok.id(viewToken(tok).coq(ref)), poolS.id(Str(acrm))}, "; ")
+		poolS.id(Str(ct)), poolAuth.id(au), poolTok.id(viewToken(tok, tokenOverride != nil || tokenByNode(v.token)).coq(ref)), poolS.id(Str(acrm))}, "; ")
 	return builtReq{req: req, coq: coq, token: tok}
 }
 
@@ -692,6 +738,9 @@ func run(args []string) error {
 			"token": v.token, "host": v.host, "host_header": br.req.Host, "origin": v.origin, "origin_header": br.req.Header.Get("Origin"),
 			"referer": v.referer, "referer_header": br.req.Header.Get("Referer"), "creds": v.creds, "authorization": br.req.Header.Get("Authorization"),
 			"ctype": v.ctype, "acrm": v.acrm, "status": status, "response": reason}
+		if strings.HasPrefix(v.token, "forged") {
+			m["csrf_token_header"] = br.token // signed by the harness itself under the guessed key
+		}
 		caseJSON[group] = append(caseJSON[group], m)
 		if len(samples) < 12 && r.Intn(400) == 0 {
 			samples = append(samples, m)
@@ -721,6 +770,32 @@ func run(args []string) error {
 					hist.Add("creds:" + v.creds)
 					hist.Add("host:" + v.host)
 					hist.Add("origin:" + v.origin)
+				}
+			}
+		}
+	}
+	// forged tokens, systematically: every configuration with the CSRF check on x every
+	// endpoint that lists a state-changing method x every guessable key
+	forgedKinds := []string{"forged_emptykey", "forged_zero32", "forged_zero64", "forged_const"}
+	for ci, c := range cfgs {
+		if c.disableCSRF {
+			continue
+		}
+		for ti, tg := range targets {
+			for _, ms := range tg.rt.Sets {
+				if ms.Method != "POST" && ms.Method != "PUT" && ms.Method != "DELETE" {
+					continue
+				}
+				for ki, kind := range forgedKinds {
+					if !thorough && (ti+ci+ki)%2 != 0 {
+						continue
+					}
+					v := baseline
+					v.token = kind
+					br := buildRequest(r, c, tg.path, ms.Method, v, nil, time.Time{})
+					status, reason := serve(c, br.req)
+					accessTerms = append(accessTerms, record("access", c, ci, tg, ms.Method, v, br, status, reason))
+					hist.Add("token:" + kind)
 				}
 			}
 		}
